@@ -116,6 +116,11 @@ def run(ctx):
         for _ in range(per_class):
             sc = rtx.gen(ctx.rng, cls)
             rtx.enumerate_schedules(ctx, ex, sc, bound, budget, rel)
+    if ctx.prop == "C07":
+        # averaging switched off by a configure *during* the run, then abort / stop: only the "returns" half of the property is judged
+        # here (what is stored in such a run is the subject of the known finding about configuring a running acquisition)
+        only_returns = lambda p: p["kind"] == "crash" or "never-returns" in p["msg"] or "never-returns" in p["sig"]
+        rtx.explore(ctx, ex, ["reconfavg"], 16 if thorough else 6, 8 if thorough else 5, only_returns)
     if ctx.prop == "C09":
         # the shipped storage devices themselves: a write that fails ends the acquisition, and the next fault-free acquisition with the
         # same device on the same path starts and is complete — every fault index x fault kind of the life cycle "retry-same-path",
